@@ -46,4 +46,17 @@ theorem unmixLR_mixUV (mb : Nat) (mr l r : Int)
   have : l - (l - r) = r := by ring
   rw [this, hr]
 
+/-- what the encoder does: mixbits 2, mixres 0 … 4, inputs of at most 25 bits -/
+theorem unmixLR_mixUV_encoder (mixres l r : Int) (hm : 0 ≤ mixres ∧ mixres ≤ 4)
+    (hl : -16777216 ≤ l ∧ l < 16777216) (hr : -16777216 ≤ r ∧ r < 16777216) :
+    unmixLR 2 mixres (mixUV 2 mixres l r).1 (mixUV 2 mixres l r).2 = (l, r) := by
+  obtain ⟨m0, m4⟩ := hm
+  have hmr : mixres = 0 ∨ mixres = 1 ∨ mixres = 2 ∨ mixres = 3 ∨ mixres = 4 := by omega
+  apply unmixLR_mixUV
+  · exact w32_of_fits (by omega) (by omega)
+  · exact w32_of_fits (by omega) (by omega)
+  · exact w32_of_fits (by omega) (by omega)
+  · rcases hmr with rfl | rfl | rfl | rfl | rfl <;> exact w32_of_fits (by norm_num; omega) (by norm_num; omega)
+  · rcases hmr with rfl | rfl | rfl | rfl | rfl <;> exact w32_of_fits (by omega) (by omega)
+
 end Sf.AlacCore
